@@ -10,6 +10,8 @@ mod search;
 mod time_control;
 mod uci;
 mod utils;
+#[cfg(walleye_verif)]
+mod verif;
 mod zobrist;
 
 /*
